@@ -2,3 +2,4 @@ pub mod common;
 mod leaf;
 mod nopanic;
 mod roundtrip;
+mod arr;
